@@ -69,6 +69,8 @@ type Result struct {
 	BubbleErr string // panic escaping synctest.Test (e.g. blocked goroutines remain)
 	Leaked    []string
 	LeakedN   int
+	PreLeaked   []string // census taken right before the gateway's shutdown (Cfg.PreCensus)
+	PreCensusNs int64
 	MutexWaiters int
 	LogTail   []string
 	GwErr     string
@@ -287,6 +289,10 @@ func (s *Sim) run(res *Result) {
 		shutdownAt = ms(cfg.ShutdownAtMs)
 	}
 	w.Run(shutdownAt)
+	if cfg.Gateway && cfg.PreCensus {
+		_, res.PreLeaked = simrt.Census("github.com/energomonitor/bisquitt/")
+		res.PreCensusNs = int64(w.Now())
+	}
 	if cfg.Gateway {
 		w.Log("gw", "shutdown", nil, "", 0)
 		s.fault("gw-shutdown")
